@@ -4,6 +4,7 @@
 -/
 import ClarabelProofs.Lemmas.ConesNN
 import ClarabelProofs.Lemmas.ConesSocScaling
+import ClarabelProofs.Lemmas.ConesPsd
 
 namespace Clarabel.C13
 open Clarabel
@@ -230,6 +231,21 @@ theorem soc_dsOffset_eq (ds0 : ℝ) (ds1 : List ℝ) (l0 : ℝ) (l1 : List ℝ) 
     dsFromDzOffsetCore ds0 ds1 z.1 z.2 l0 l1 w0 w1 eta = mulWCore y0' y1' q.1 q.2 1 0 w0 w1 eta :=
   dsFromDzOffset_eq ds0 ds1 l0 l1 w0 w1 eta y0 y0' y1 y1' hw hw0 he hl0 hres hl hd hy hy'
 
+/-- [R] SOC: `update_scaling` succeeds (returns `true`) for every interior pair `(s,z)`
+(Cauchy–Schwarz gives `s₀z₀ + ⟨s₁,z₁⟩ > 0`, so the un-normalised `w` is interior). -/
+theorem soc_update_succeeds (K : Soc.Cone ℝ) (s0 : ℝ) (s1 : List ℝ) (z0 : ℝ) (z1 : List ℝ)
+    (hs : Interior s0 s1) (hz : Interior z0 z1) (hlen : s1.length = z1.length) :
+    (updateScalingCore K s0 s1 z0 z1).1 = true :=
+  updateScalingCore_succeeds K s0 s1 z0 z1 hs hz hlen
+
+/-- [R] SOC: `(WᵀW) z = s` — `mul_Hs z = s` for the scaling of interior `(s,z)`
+(corollary of `soc_NT_identities`, `soc_W_Winv` and `W·W = η²(2ww′ − J)`). -/
+theorem soc_WtW_z_eq_s (K K' : Soc.Cone ℝ) (s0 : ℝ) (s1 : List ℝ) (z0 : ℝ) (z1 : List ℝ)
+    (hs : Interior s0 s1) (hz : Interior z0 z1) (hlen : s1.length = z1.length)
+    (h : updateScalingCore K s0 s1 z0 z1 = (true, K')) :
+    ∃ w0 w1, K'.w = join w0 w1 ∧ mulHsCore z0 z1 w0 w1 K'.eta = (s0, s1) :=
+  updateScalingCore_WtW K K' s0 s1 z0 z1 hs hz hlen h
+
 /-- non-vacuity of `soc_NT_identities`: `s = (2,(1))`, `z = (3,(−1))` are interior. -/
 example : Interior 2 [1] ∧ Interior 3 [-1] := by
   refine ⟨⟨by norm_num, ?_⟩, ⟨by norm_num, ?_⟩⟩ <;> simp <;> norm_num
@@ -238,14 +254,42 @@ example : Interior 2 [1] ∧ Interior 3 [-1] := by
   Not proved (stated here in full; exercised on every run by the `soc.identities` oracle and
   the bit-exact correspondence of `update_scaling`, `Δs_from_Δz_offset`):
 
-  * `soc_update_succeeds`: for `s, z ∈ int K`, `(updateScalingCore K s z).1 = true`
-    (needs Cauchy–Schwarz for `⟨s₁,z₁⟩ > −s₀z₀`); conversely `false` iff the residual of
-    `s`, `z` or `w` is not positive.
+  * the converse of `soc_update_succeeds` (`false` iff the residual of `s`, `z` or `w` is not
+    positive) — the `false` branches are read off the definition; not stated as a theorem.
   * `combined_ds_shift = W⁻¹Δs ∘ WΔz − σμe` is the model's definition (`Soc.combinedDsShift`
     composes `mulWinv`, `mulW`, `circOp`, `scaledUnitShift`), tied to the code by the channel.
-  * `WᵀW z = s` as a corollary of `soc_NT_identities` and `soc_W_Winv` (`W λ = s`).
 -/
 
 end SOC
+
+/-! ## PSD cone (LAPACK results as hypotheses; matrices of arbitrary order `n`) -/
+section PSD
+open Matrix
+
+/-- [F] PSD Nesterov–Todd scaling.  Given the LAPACK results that `update_scaling` relies on —
+Cholesky factors `S = L₁L₁ᵀ`, `Z = L₂L₂ᵀ` and an SVD `L₂ᵀL₁ = UΣVᵀ` with `UᵀU = VᵀV = I` —
+and `Λ^{-1/2} = diag d` with `dᵢ²σᵢ = 1`, the matrices the code assembles,
+`R = L₁VΣ^{-1/2}` and `R⁻¹ = Σ^{-1/2}UᵀL₂ᵀ`, satisfy `RᵀZR = Σ` (`W z = λ`),
+`R⁻¹SR⁻ᵀ = Σ` (`W⁻ᵀ s = λ`) and `R⁻¹R = RR⁻¹ = I`.  Pure matrix algebra over any field. -/
+theorem psd_nt_scaling {n : ℕ} {K : Type} [Field K]
+    (S Z L1 L2 U V : Matrix (Fin n) (Fin n) K) (σ d : Fin n → K)
+    (hS : S = L1 * L1ᵀ) (hZ : Z = L2 * L2ᵀ)
+    (hsvd : L2ᵀ * L1 = U * diagonal σ * Vᵀ)
+    (hU : Uᵀ * U = 1) (hV : Vᵀ * V = 1) (hd : ∀ i, d i * d i * σ i = 1) :
+    let R := L1 * V * diagonal d
+    let Rinv := diagonal d * Uᵀ * L2ᵀ
+    Rᵀ * Z * R = diagonal σ ∧ Rinv * S * Rinvᵀ = diagonal σ ∧ Rinv * R = 1 ∧ R * Rinv = 1 :=
+  Psd.nt_scaling S Z L1 L2 U V σ d hS hZ hsvd hU hV hd
+
+/-- [R] the code's `Λ^{-1/2} = 1/√λ` meets the hypothesis `dᵢ²σᵢ = 1` for positive singular
+values (also the non-vacuity witness of `psd_nt_scaling`: `n = 1`, all matrices `1`). -/
+theorem psd_isqrt_hyp {n : ℕ} (σ : Fin n → ℝ) (hσ : ∀ i, 0 < σ i) :
+    ∀ i, (1 / Real.sqrt (σ i)) * (1 / Real.sqrt (σ i)) * σ i = 1 :=
+  Psd.isqrt_hyp σ hσ
+
+example : (1 : Matrix (Fin 1) (Fin 1) ℝ)ᵀ * 1 = 1 * diagonal (fun _ => (1 : ℝ)) * (1 : Matrix (Fin 1) (Fin 1) ℝ)ᵀ := by
+  simp
+
+end PSD
 
 end Clarabel.C13
